@@ -439,6 +439,21 @@ def in_hypotheses(case):
     shrinker only moves inside them: otherwise it wanders from the defect it started with into one
     of the recorded findings or into undocumented usage (an i18n:choose without branches ...)."""
     import re
+
+    def has_empty_text(nodes):
+        # the template parser never delivers an empty text node among the children of an element and the
+        # generator writes none; a shrinking step that empties one would make "first child is text" true
+        # of an element-first message (attribute values may be empty: they are not looked at here)
+        for n in nodes or []:
+            if n[0] == 't' and n[1] == '':
+                return True
+            if n[0] == 'e' and has_empty_text(n[4]):
+                return True
+            if n[0] == 'd' and has_empty_text(n[3]):
+                return True
+        return False
+    if has_empty_text(case.get('tmpl')):
+        return False
     cfg = case['cfg']
     ignore = set(cfg['ignore_tags'])
     incl = set(cfg['include_attrs'])
